@@ -162,7 +162,10 @@ def dist_items(ctx, overloads):
     total = len(items)
     keep = ctx.pick(1200, 30000)
     if len(items) > keep:
-        items = rng.sample(items, keep)
+        # every constructed distribution is sampled (the path with the most arithmetic of its own); the other uses are drawn
+        always = [it for it in items if it["expr"].startswith("sample(") and it["expr"].endswith(", 3)")]
+        rest = [it for it in items if not (it["expr"].startswith("sample(") and it["expr"].endswith(", 3)"))]
+        items = always + rng.sample(rest, min(keep, len(rest)))
     return items, {"constructors": len(ctors), "parameter_combinations": len(cands), "constructed": len(built), "consumers": len(users), "uses_possible": total, "uses_run": len(items)}
 
 
@@ -223,7 +226,8 @@ def run(ctx):
     dist, dist_stats = dist_items(ctx, overloads)
     prim, prim_stats = prim_items(ctx, overloads)
     limits_pool.append(PRIM_LIMITS)
-    groups = [(li, its, 20000) for li, its in by_lim.items()] + [(0, dist, 6000), (len(limits_pool) - 1, prim, 20000)]
+    limits_pool.append({"search": 1000000})     # binomial / hypergeometric sampling of astronomically many trials is refused instead of running for minutes
+    groups = [(li, its, 20000) for li, its in by_lim.items()] + [(len(limits_pool) - 1, dist, 6000), (len(limits_pool) - 2, prim, 20000)]
     for li, its, budget in groups:
         extra = {"limits": limits_pool[li]} if limits_pool[li] else {}
         extra["perms"] = {"regex": True}
